@@ -2,7 +2,7 @@
    every schema and every field parameter; it makes at most 2 * (size of the schema) + (weight of the
    schema) * (bytes consumed) calls of parseTagAndLength, where the weight is 0 for a schema without
    slices; what it returns has the shape of the Go type. *)
-From Coq Require Import List NArith ZArith Bool Arith Lia ZifyN ZifyNat ZifyBool Psatz.
+From Coq Require Import List NArith ZArith Bool Arith Lia ZifyN ZifyNat ZifyBool.
 From GmsmVerif Require Import Lib.Outcome Dec.Access Dec.AccessProofs Dec.Asn1Model.
 Import ListNotations.
 Local Open Scope nat_scope.
